@@ -118,7 +118,10 @@ func raceChild(args []string) {
 			ng := &gowarc.PatternNameGenerator{Directory: filepath.Join(dir, "out"), Prefix: "r-"}
 			_ = os.MkdirAll(filepath.Join(dir, "out"), 0o755)
 			w := gowarc.NewWarcFileWriter(gowarc.WithFileNameGenerator(ng), gowarc.WithMaxConcurrentWriters(k), gowarc.WithMaxFileSize(900), gowarc.WithCompression(false),
-				gowarc.WithWarcInfoFunc(func(rb gowarc.WarcRecordBuilder) error { return nil }))
+				gowarc.WithWarcInfoFunc(func(rb gowarc.WarcRecordBuilder) error { return nil }),
+				// hooks are user code run by the writer: with them set, whatever the writer hands to them is read on the calling goroutine
+				gowarc.WithBeforeFileCreationHook(func(string) error { return nil }),
+				gowarc.WithAfterFileCreationHook(func(string, int64, string) error { return nil }))
 			var inner sync.WaitGroup
 			for g := 0; g < n; g++ {
 				inner.Add(1)
@@ -131,7 +134,7 @@ func raceChild(args []string) {
 						if buildWrec(wr) == nil {
 							w.Write(wr.rec)
 						}
-						if i == 4 && g == 0 {
+						if i == 2+g%5 {
 							_ = w.Rotate()
 						}
 					}
